@@ -118,6 +118,17 @@ func boundaryCases() []GCase {
 			return obsWith(perf, nil, hist)
 		})})
 	}
+	// 100 agreed performables each of which alone exceeds the default report gas limit (5.3M incl. 300k overhead):
+	// one report per performable, never more reports than the advertised maximum
+	add(GCase{Family: "hundred-heavy-performables", N: 4, F: 1, Seq: 22, Digest: 1, Obs: nObs(3, func(i int) GObs {
+		var perf []GRes
+		for j := 0; j < 100; j++ {
+			g := honest(1, 3100+j%5, j+1)
+			g.Gas = 5_200_000 + uint64(j)
+			perf = append(perf, g)
+		}
+		return obsWith(perf, nil, hist)
+	})})
 	// f+1 observers each sending all of k candidates is impossible beyond 100; instead many oracles with shifted windows
 	add(GCase{Family: "cap-100-many-oracles", N: 10, F: 3, Seq: 21, Digest: 2, Obs: nObs(10, func(i int) GObs {
 		var perf []GRes
